@@ -19,7 +19,8 @@ CLAIMS = {
          "This is essentially the whole interception mechanism; message contents are not decided.", "§4 C07"),
  "C13": ("must-pass-through (release on all exits) over MIR CFG + who-may-call + compile-time twin pairing",
          "R13a: each closure::insert is post-dominated on all non-unwind paths by closure::cleanup of the same ident with the saved value; "
-         "R13b: only Runner may swap variables; R13c: compile_closure restores/removes closure variables before every exit.", "§4 C13"),
+         "R13b: only Runner may swap variables; R13c: compile_closure restores/removes closure variables before every exit; R13d: parameters are restored in "
+         "reverse order of binding (found and repaired: `|x, x|` leaked the key).", "§4 C13"),
 }
 
 CLAIMS.update({
